@@ -142,7 +142,7 @@ static ChildResult run_in_child(const Plan& p, const Cfg& c, u64 sseed, bool wan
     pid_t pid = fork();
     if (pid == 0) {
         if (!freopen(errpath.c_str(), "w", stderr)) _exit(5);
-        alarm(120);
+        alarm(p.ops.size() > 2000 ? 120 : 8);
         sim::init(env::MAXT);
         Cfg c2 = c; c2.keep_log = want_log;
         Stats agg; u64 lh = 0;
@@ -328,7 +328,7 @@ int main(int argc, char** argv) {
         u64 rs = run_seed(c.seed, c.prop, (u64)r);
         Plan p = gen::make(c.prop, rs, (int)(r % 1000000));
         printf("START %ld\n", r); fflush(stdout);
-        alarm(120);        // uninstrumented builds have no step budget: a call that never returns ends the worker, the driver replays the run
+        alarm(20);         // uninstrumented builds have no step budget: a call that never returns ends the worker, the driver replays the run
         u64 lh = 0; bool nt = false; int ops_run = 0;
         Finding f = check_plan(p, c, rs, agg, &lh, &nt, &ops_run);
         ++done; ops_total += ops_run;
